@@ -179,7 +179,7 @@ func checkC02(c *core.Ctx) {
 	c.ExhaustiveDomain(fmt.Sprintf("all unit-kind sequences of length 1..%d over 13 kinds", maxLen))
 	// sampled longer sequences
 	r := c.Rng(core.StrID("c02long"))
-	for i := 0; i < c.N(300, 50000); i++ {
+	for i := 0; i < c.N(1200, 50000); i++ {
 		l := maxLen + 1
 		kinds := make([]int, l)
 		for j := range kinds {
@@ -190,7 +190,7 @@ func checkC02(c *core.Ctx) {
 			c02Run(c, c02Scn{Mode: "seq", Kinds: kinds, Index: n, Lock: r.Bool()})
 		}
 	}
-	for i := 0; i < c.N(200, 20000); i++ {
+	for i := 0; i < c.N(800, 20000); i++ {
 		l := 6 + r.Intn(35)
 		kinds := make([]int, l)
 		for j := range kinds {
@@ -211,7 +211,7 @@ func checkC02(c *core.Ctx) {
 	}
 	c.ExhaustiveDomain("all 2^5+2^6+2^8 casings of begin/commit/rollback")
 	// metamorphic
-	for i := 0; i < c.N(100, 2000); i++ {
+	for i := 0; i < c.N(300, 2000); i++ {
 		n++
 		if c.Mine(n) {
 			c02Metamorphic(c, i)
